@@ -234,12 +234,13 @@ CHECKS["C10"] = cfg(
 CHECKS["C17"] = cfg(
     "C17", exhaustive=True,
     technique="runtime monitoring: own IOTA DID grammar + (network, tag bytes) model as oracle over an exhaustive spelling grid and random families through all 8 construction paths; pairwise Eq/Ord/Hash against the model",
-    level_text="An exhaustive grid (scheme x method x network x prefix x tag length 62-66 x case/non-hex x suffix x whitespace) and random families of spellings are fed to every construction path (parse, FromStr, TryFrom<&str/String/CoreDID/BaseDIDUrl>, try_from_core, serde) and the builders; every accepted value must be the exact lowercase normal form with the default network elided and no URL parts, recompose from network_str/tag_str, round-trip through string/JSON/CoreDID, expose exactly the bytes/name given to new(), and be equal (and order/hash consistently) exactly when network and tag bytes are equal.",
+    level_text="An exhaustive grid (scheme x method x network x prefix x tag length 62-66 x case/non-hex x suffix x whitespace) and random families of spellings are fed to every construction path (parse, FromStr, TryFrom<&str/String/CoreDID/BaseDIDUrl>, try_from_core, serde) and the builders; every accepted value must be the exact lowercase normal form with the default network elided and no URL parts, recompose from network_str/tag_str, round-trip through string/JSON/CoreDID, expose exactly the bytes/name given to new(), and be equal (and order/hash consistently) exactly when network and tag bytes are equal. NetworkName is driven through try_from, validate_network_name and serde (accepted exactly the 1-6 lowercase alphanumerics, builders never panic on an accepted name); from_alias_id is driven over alias-id shapes with embedded network segments (whatever it returns sits on the network passed in).",
     min={"quick": {"accepted": 500000, "accepted_convert_paths": 200000, "value_checks": 400000, "must_accept_checks": 300000, "rejected": 300000, "pair_checks": 2000000,
-                   "pair_checks_equal_models": 800000, "new_checked": 10000, "netname_rejected": 3000, "grid_strings": 70000, "nontrivial": 2000},
+                   "pair_checks_equal_models": 800000, "new_checked": 10000, "netname_rejected": 3000, "grid_strings": 70000, "nontrivial": 2000,
+                   "alias_shape_checks": 30000, "alias_shape_returned": 200, "netname_serde_checks": 12000, "netname_serde_accepted_valid": 5000, "netname_serde_rejected": 5000},
          "thorough": {"accepted": 20000000, "value_checks": 15000000, "pair_checks": 100000000, "grid_strings": 5000000, "nontrivial": 5000}},
     assumptions=["no accept/reject claim for inputs outside the grammar (only what is accepted is judged)",
-                 "NetworkName values obtained through its unvalidated serde path and from_alias_id on malformed alias ids are counted, not judged"],
+                 "from_alias_id refusing (by panicking, as documented) an alias id that is not 0x + 64 hex digits is counted, not judged; whatever it returns is judged"],
 )
 
 CHECKS["C05"] = cfg(
